@@ -234,7 +234,14 @@ class Check(DiffCheck):
     lockset_rules = {10, 11, 12, 13, 14, 15, 20}
     needs_libphoton = True
     coq_dirs = ['Base', 'C04', 'Sched', 'E3', 'C01']
-    coq_targets = ['C01/C01_Excl.vo', 'C01/C01_I2.vo', 'C01/C01_Handoff.vo', 'C01/C01_Finding.vo',
+    # ownership / lock-result / not-stuck development: C01_Eff (case analysis + effect lemmas), C01_Cls (own_inv),
+    # C01_J1..J4 (its clauses), C01_Own2, C01_Live / C01_K1 / C01_K2 (live_inv, wit_inv), C01_Own3 (final statements),
+    # C01_Ex (non-vacuity examples); each file < ~2 min, < 0.6 GB
+    coq_targets = ['C01/C01_Excl.vo', 'C01/C01_I2a.vo', 'C01/C01_I2b.vo', 'C01/C01_I2c.vo', 'C01/C01_I2.vo',
+                   'C01/C01_Handoff.vo', 'C01/C01_Finding.vo',
+                   'C01/C01_Eff.vo', 'C01/C01_Cls.vo', 'C01/C01_J1.vo', 'C01/C01_J2.vo', 'C01/C01_J3.vo', 'C01/C01_J4.vo',
+                   'C01/C01_Own.vo', 'C01/C01_Own2.vo', 'C01/C01_Live.vo', 'C01/C01_K1.vo', 'C01/C01_K2.vo',
+                   'C01/C01_Own3.vo', 'C01/C01_Ex.vo',
                    'C01/C01_Spin_Proofs.vo', 'C01/C01_Mcs2.vo', 'C01/C01_Coop.vo']
     properties_v = 'C01/C01_Properties.v'
     extract_v = 'C01/C01_Extract.v'
